@@ -2,24 +2,27 @@
 (* Pool protocol shared by the process-level model (RenderPool.tla, C14) and the trace spec that
    validates the `verif` pool-hook events of the real code (TraceRenderPool.tla, C10 + C14).
 
-   h  : [buffer object -> set of renders that currently hold (= may still touch) it]
+   h  : the holding relation, a set of pairs <<buffer object, render>>: the render currently holds
+        (= may still touch) the buffer
    p  : set of buffer objects inside sync.Pool
    A render holds a buffer from Get until its last use; Put makes the object available to others.  *)
 EXTENDS Integers, FiniteSets
 
+HoldersOf(h, b) == {x[2] : x \in {y \in h : y[1] = b}}
 \* sync.Pool.Get hands r the object b (a pooled one, or a new one that nobody has seen yet)
-HGet(h, r, b)  == [h EXCEPT ![b] = @ \cup {r}]
+HGet(h, r, b)  == h \cup {<<b, r>>}
 PGet(p, b)     == p \ {b}
 \* r will not touch b any more
-HDrop(h, r, b) == [h EXCEPT ![b] = @ \ {r}]
+HDrop(h, r, b) == h \ {<<b, r>>}
 \* sync.Pool.Put
 PPut(p, b)     == p \cup {b}
 
-GetLegal(h, r, b) == h[b] = {}            \* nobody holds what the pool hands out
-UseLegal(h, r, b) == h[b] = {r}           \* only its single holder touches a buffer
+GetLegal(h, r, b) == HoldersOf(h, b) = {}        \* nobody holds what the pool hands out
+UseLegal(h, r, b) == HoldersOf(h, b) = {r}       \* only its single holder touches a buffer
+Holds(h, r) == \E x \in h : x[2] = r
 
 \* C14 ExclusiveBuffer: no buffer object is held by two renders at once
-Exclusive(h) == \A b \in DOMAIN h : Cardinality(h[b]) <= 1
+Exclusive(h) == \A x, y \in h : x[1] = y[1] => x = y
 \* a pooled object is not held by anybody (Put happens after the last use)
-PooledUnheld(h, p) == \A b \in p : h[b] = {}
+PooledUnheld(h, p) == \A x \in h : x[1] \notin p
 =============================================================================
